@@ -238,7 +238,8 @@ class IntegratorProxy(object):
                 ts = kw.get("timestep", a[4] if len(a) > 4 else None)
                 depth[0] += 1
                 if depth[0] == 1:
-                    log.emit("Attempt", h=ts)
+                    # ncall: user-callable invocations so far in this API call (where a fault plan would be now)
+                    log.emit("Attempt", h=ts, ncall=int(getattr(getattr(log, "fault_plan", None), "n", 0) or 0))
                 try:
                     out = orig_step(*a, **kw)
                 except BaseException as e:
